@@ -122,15 +122,18 @@ typedef struct { PointZ* data; size_t size; size_t cap; } OutPathZ;
 typedef struct { OutPathZ* data; size_t size; size_t cap; } OutPathsZ;
 double* g_rdd_base; size_t g_rdd_len;
 #define VF_RDD() (__CPROVER_assert((size_t)(v - g_rdd_base) < g_rdd_len, "read inside the stated array length"), *v++)
-double vf_scaled(double v, double scale) { return 0.0; }   /* x*scale, y*scale: rounding is not part of this check */
+double g_prod[4]; int g_nprod; double g_prod_a[4], g_prod_s[4];
+double vf_scaled(double v, double scale) { __CPROVER_assert(g_nprod < 4, "four products"); g_prod_a[g_nprod] = v; g_prod_s[g_nprod] = scale; return g_prod[g_nprod++]; }   /* x*scale, y*scale: the product is a ghost value (its rounding error is not decided) */
+/* Point64(double, double[, z]) rounds to nearest (C16_init); Point64(int64, int64[, z]) copies */
+static inline int64_t vf_nearest(double v) { return (int64_t)round(v); }
+#define P64_FROM(v) _Generic((v), double: vf_nearest(v), default: (int64_t)(v))
 //@extract file=CPP/Clipper2Lib/include/clipper2/clipper.export.h func=ConvertCPathsDToPaths64 ifdef=ZBITS cpp=USINGZ vec=result,path
 //@presub /static Paths64 ConvertCPathsDToPaths64\(const CPathsD paths/static OutPathsZ ConvertCPathsDToPaths64(double* paths/
 //@presub /Paths64 result;/OutPathsZ result = {0};/
 //@presub /Path64 path;/OutPathZ path = {0};/
 //@presub /double\* v = paths;/double* v = paths; g_rdd_base = paths; g_rdd_len = (size_t)paths[0];/
-//@presub /double x = \*v\+\+ \* scale;/double x = vf_scaled(VF_RDD(), scale);/
-//@presub /double y = \*v\+\+ \* scale;/double y = vf_scaled(VF_RDD(), scale);/
-//@presub /path\.emplace_back\(x, y, z\);/VF_PUSH(path, ((PointZ){(int64_t)x, (int64_t)y, z}));/
+//@presub /\*v\+\+ \* scale/vf_scaled(VF_RDD(), scale)/ min=2
+//@presub /path\.emplace_back\(x, y, z\);/VF_PUSH(path, ((PointZ){P64_FROM(x), P64_FROM(y), z}));/
 //@presub /result\.emplace_back\(std::move\(path\)\);/VF_PUSH(result, path);/
 //@sub /\(size_t\)\(\*v\+\+\)/(size_t)(VF_RDD())/
 //@sub /\(size_t\)\(\*v\)/(size_t)(v[0])/
@@ -143,10 +146,16 @@ void h_ZBits(void)
   int64_t z0 = nondet_i64(), z1 = nondet_i64();
   /* one path of two vertices in the USINGZ layout: [len, count, size, 0, x, y, zbits, x, y, zbits] */
   double arr[10] = { 10.0, 1.0, 2.0, 0.0, nondet_double(), nondet_double(), Reinterpret_z2d(z0), nondet_double(), nondet_double(), Reinterpret_z2d(z1) };
-  OutPathsZ r = ConvertCPathsDToPaths64(arr, nondet_double());
+  for (int i = 0; i < 4; ++i) { g_prod[i] = nondet_double(); __CPROVER_assume(g_prod[i] >= -0x1p52 && g_prod[i] <= 0x1p52); } g_nprod = 0; double sc = nondet_double();
+  double x0 = arr[4], y0 = arr[5], x1 = arr[7], y1 = arr[8]; __CPROVER_assume(!__CPROVER_isnand(x0) && !__CPROVER_isnand(y0) && !__CPROVER_isnand(x1) && !__CPROVER_isnand(y1) && !__CPROVER_isnand(sc));
+  OutPathsZ r = ConvertCPathsDToPaths64(arr, sc);
   __CPROVER_assert(r.size == 1 && r.data[0].size == 2, "one path of two vertices");
   __CPROVER_assert(r.data[0].data[0].z == z0 && r.data[0].data[1].z == z1, "z values are carried bit for bit");
+  /* x and y: each coordinate times the scale (operands in array order), then ROUNDED to a nearest integer by the Point64(double, double) constructor - not truncated */
+  __CPROVER_assert(g_nprod == 4 && g_prod_a[0] == x0 && g_prod_a[1] == y0 && g_prod_a[2] == x1 && g_prod_a[3] == y1 && g_prod_s[0] == sc && g_prod_s[1] == sc && g_prod_s[2] == sc && g_prod_s[3] == sc, "x, y of every vertex are multiplied by the scale, in array order");
+#define NEAR(r_, v_) ((double)(r_) - (v_) <= 0.5 && (double)(r_) - (v_) >= -0.5)
+  __CPROVER_assert(NEAR(r.data[0].data[0].x, g_prod[0]) && NEAR(r.data[0].data[0].y, g_prod[1]) && NEAR(r.data[0].data[1].x, g_prod[2]) && NEAR(r.data[0].data[1].y, g_prod[3]), "scaled coordinates are rounded to nearest");
   VF_CANARY();
 }
 #endif
-//@run name=ConvertCPathsDToPaths64.zbits entry=h_ZBits defs=ZBITS,USINGZ unwind=4 flags="--bounds-check --pointer-check" timeout=300 bounded="one path of two vertices; all z values symbolic" props=C17,C15
+//@run name=ConvertCPathsDToPaths64.zbits entry=h_ZBits defs=ZBITS,USINGZ unwind=6 flags="--bounds-check --pointer-check" timeout=300 bounded="one path of two vertices; all z values symbolic" props=C17,C15
